@@ -32,9 +32,17 @@ class Presented(type("")):
         return "<presented format>"
 
 
-def construct(ver, s, rh=False, with_json=True, reparse=True, order=None):
+SUB = {}
+
+
+def construct(ver, s, rh=False, with_json=True, reparse=True, order=None, sub=False):
+    K = CLS[ver]
+    if sub:     # a trivial user subclass: "every object" includes instances of subclasses, and alternate constructors must honour them
+        if ver not in SUB:
+            SUB[ver] = type(str("User" + CLS[ver].__name__), (CLS[ver],), {})
+        K = SUB[ver]
     try:
-        obj = CLS[ver].from_rh_vector(s) if rh else CLS[ver](s)
+        obj = K.from_rh_vector(s) if rh else K(s)
     except Exception as e:  # noqa - any exception class is an observation
         return None, {"cls": "exc", "e": exc_obs(e)}
     o = observe(obj, ver, with_json, order)
@@ -44,7 +52,7 @@ def construct(ver, s, rh=False, with_json=True, reparse=True, order=None):
         # the library's own constructor applied to what it emitted
         for name, text in (("re_clean", obj.clean_vector()), ("re_rh", obj.rh_vector())):
             try:
-                o2 = CLS[ver].from_rh_vector(text) if name == "re_rh" else CLS[ver](text)
+                o2 = K.from_rh_vector(text) if name == "re_rh" else K(text)
                 o[name] = {"cls": "ok", "scores": observe(o2, ver, False)["scores"], "clean": esc(o2.clean_vector()),
                            "eq": bool(o2 == obj and obj == o2), "hash_eq": hash(o2) == hash(obj)}
             except Exception as e:  # noqa
@@ -57,7 +65,7 @@ def construct(ver, s, rh=False, with_json=True, reparse=True, order=None):
         try:
             asm = pre + "/".join(m + ":" + fields[m] for m in mand) + "/" + obj.temporal_vector() + "/" + obj.environmental_vector()
             try:
-                o3 = CLS[ver](asm)
+                o3 = K(asm)
                 o["asm"] = {"s": esc(asm), "cls": "ok", "scores": observe(o3, ver, False)["scores"]}
             except Exception as e:  # noqa
                 o["asm"] = {"s": esc(asm), "cls": "exc", "scores": [], "e": exc_obs(e)}
@@ -66,9 +74,56 @@ def construct(ver, s, rh=False, with_json=True, reparse=True, order=None):
     return obj, o
 
 
+def limbs(n):
+    n = abs(int(n))
+    out = []
+    while n:
+        out.append(n % 10000)
+        n //= 10000
+    return out
+
+
+def internals(ver, s):
+    """the intermediate quantities the library exposes (Internals.tla): exact decimals as scaled integers in limbs"""
+    from decimal import Decimal as D, localcontext, ROUND_DOWN
+    try:
+        obj = CLS[ver](s)
+    except Exception as e:  # noqa
+        return {"cls": "exc", "e": exc_obs(e)}
+    import importlib
+    names = importlib.import_module("cvss.constants" + ver).METRICS_ABBREVIATIONS
+    o = {"cls": "ok", "desc": [[m, esc(obj.get_value_description(m))] for m in names]}
+    with localcontext() as ctx:
+        ctx.prec = 200
+
+        def scaled(x, k, exact=True):
+            v = D(x).scaleb(k)
+            t = v.to_integral_value(rounding=ROUND_DOWN)
+            if exact and t != v:
+                return [9999, 9999, 9999, 9999, 9999, 9999, 9999, 9999, 9999, 9999]       # not a decimal with k places: never equal to the specification's value
+            return limbs(t)
+        if ver == "4":
+            o["macro"] = esc(obj.macroVector())
+            o["m"] = [esc(obj.m(b)) for b in ("AV", "PR", "UI", "AC", "AT", "VC", "VI", "VA", "SC", "SI", "SA", "CR", "IR", "AR", "E")]
+        elif ver == "3":
+            o["iscb6"] = int(D(obj.isc_base).scaleb(6)) if D(obj.isc_base).scaleb(6) == int(D(obj.isc_base).scaleb(6)) else -1
+            o["miscb6"] = int(D(obj.modified_isc_base).scaleb(6)) if D(obj.modified_isc_base).scaleb(6) == int(D(obj.modified_isc_base).scaleb(6)) else -1
+            o["esc10"] = scaled(obj.esc, 10)
+            o["mesc10"] = scaled(obj.modified_esc, 10)
+            o["isc12"] = {"n": D(obj.isc) < 0, "m": scaled(obj.isc, 12, exact=False)}
+            o["misc12"] = {"n": D(obj.modified_isc) < 0, "m": scaled(obj.modified_isc, 12, exact=False)}
+        else:
+            o["imp17"] = scaled(obj.impact_equation(), 17)
+            o["adj17"] = scaled(obj.adjusted_impact_equation(), 17)
+    return o
+
+
 def main():
     job = json.load(io.open(sys.argv[1], encoding="utf-8"))
     out = []
+    if job.get("warm"):        # this recording runs after a history that exercised every entry point and API of the library
+        from obs import warm_up
+        warm_up()
     for n, it in enumerate(job["items"]):
         op = it["op"]
         ev = dict(it)
@@ -81,12 +136,12 @@ def main():
             if n % 4 == 3:          # every fourth event is computed in a freshly started worker thread
                 import threading
                 box = []
-                th = threading.Thread(target=lambda: box.append(construct(it["ver"], arg, rh=(op == "fromrh"), with_json=it.get("json", True), order=order)))
+                th = threading.Thread(target=lambda: box.append(construct(it["ver"], arg, rh=(op == "fromrh"), with_json=it.get("json", True), order=order, sub=(n % 7 == 6))))
                 th.start()
                 th.join()
                 _, ev["out"] = box[0]
             else:
-                _, ev["out"] = construct(it["ver"], arg, rh=(op == "fromrh"), with_json=it.get("json", True), order=order)
+                _, ev["out"] = construct(it["ver"], arg, rh=(op == "fromrh"), with_json=it.get("json", True), order=order, sub=(n % 7 == 6))
             if op == "fromrh":
                 raw = unesc(it["s"])
                 if "/" in raw:
@@ -114,15 +169,27 @@ def main():
                 obs_.append(o)
             n = len(objs)
             foreign = [None, "", 0, (1,), object()] + [unesc(p["s"]) for p in it["items"][:3]]
+            raised = []
+
+            def safe(f, default, what):          # a comparison that raises is an observation (recorded), not a crash of the recorder
+                try:
+                    return f()
+                except Exception as e:  # noqa
+                    raised.append(what + ":" + type(e).__name__)
+                    return default
+            both = lambda a, b: objs[a] is not None and objs[b] is not None  # noqa
             ev["out"] = {
                 "objs": obs_,
-                "eq": [[(bool(objs[a] == objs[b]) if objs[a] is not None and objs[b] is not None else False) for b in range(n)] for a in range(n)],
-                "ne": [[(bool(objs[a] != objs[b]) if objs[a] is not None and objs[b] is not None else True) for b in range(n)] for a in range(n)],
-                "hash_eq": [[(hash(objs[a]) == hash(objs[b]) if objs[a] is not None and objs[b] is not None else False) for b in range(n)] for a in range(n)],
-                "in_set": [[(objs[b] in set([objs[a]]) if objs[a] is not None and objs[b] is not None else False) for b in range(n)] for a in range(n)],
-                "foreign_eq": [any((o == f) or (f == o) for f in foreign) if o is not None else False for o in objs],
-                "set_size": len(set(o for o in objs if o is not None)),
+                "eq": [[(safe(lambda: bool(objs[a] == objs[b]), False, "eq") if both(a, b) else False) for b in range(n)] for a in range(n)],
+                "ne": [[(safe(lambda: bool(objs[a] != objs[b]), True, "ne") if both(a, b) else True) for b in range(n)] for a in range(n)],
+                "hash_eq": [[(safe(lambda: hash(objs[a]) == hash(objs[b]), False, "hash") if both(a, b) else False) for b in range(n)] for a in range(n)],
+                "in_set": [[(safe(lambda: objs[b] in set([objs[a]]), False, "set") if both(a, b) else False) for b in range(n)] for a in range(n)],
+                "foreign_eq": [safe(lambda: any((o == f) or (f == o) for f in foreign), False, "foreign") if o is not None else False for o in objs],
+                "set_size": safe(lambda: len(set(o for o in objs if o is not None)), -1, "set"),
+                "raised": sorted(set(raised)),
             }
+        elif op == "internals":
+            ev["out"] = internals(it["ver"], unesc(it["s"]))
         elif op == "walk":
             objs, obs_ = [], []
             for s_ in it["strings"]:
